@@ -23,3 +23,14 @@ func init() {
 		"wsHandler.ServeHTTP": "wsHandler.ServeHTTP+full",
 	})
 }
+
+// Client.SendToAll: where each reply is stored (`msgs[i], err = c.Send(e, path, buf)`) is the point of
+// the function (seed C14r5-B appended the successful replies instead)
+func init() {
+	for _, f := range targets["websocket_client.go"] {
+		if f == "Client.SendToAll+full" {
+			return
+		}
+	}
+	targets["websocket_client.go"] = append(targets["websocket_client.go"], "Client.SendToAll+full")
+}
